@@ -23,15 +23,17 @@ type EncOpts struct {
 	SplitMsgs    bool // a submessage encoded as two occurrences that merge
 	MapVariants  bool // value before key, omitted zero key/value
 	SortFields   bool // canonical: emit fields ascending by number (ignored when Shuffle draws)
+	Interleave   bool // with SplitMsgs: the second occurrence of a split submessage goes to the end of the enclosing message (other fields in between)
 	Labels       *[]string
 }
 
 var AllPerturbations = EncOpts{Shuffle: true, Repack: true, Denorm: true, Decoys: true, SplitMsgs: true, MapVariants: true}
 
 type encoder struct {
-	c Chooser
-	o EncOpts
-	r Resolver
+	c        Chooser
+	o        EncOpts
+	r        Resolver
+	deferred [][]byte // per open message: occurrences postponed to the end of its body
 }
 
 func (e *encoder) label(s string) {
@@ -133,6 +135,13 @@ func (e *encoder) one(b []byte, fd protoreflect.FieldDescriptor, v Val) []byte {
 			second := &Msg{Fields: v.M.Fields[cut:], Unknown: v.M.Unknown}
 			e.label("split-submessage")
 			b = e.one(b, fd, Val{M: first})
+			if e.o.Interleave && len(e.deferred) > 0 && e.coin(2, "interleave") {
+				e.label("split-noncontiguous")
+				i := len(e.deferred) - 1
+				enc := e.one(nil, fd, Val{M: second}) // may itself defer further occurrences into slot i
+				e.deferred[i] = append(e.deferred[i], enc...)
+				return b
+			}
 			return e.one(b, fd, Val{M: second})
 		}
 		body := e.msg(nil, fd.Message(), v.M)
@@ -166,6 +175,7 @@ func (e *encoder) msg(b []byte, md protoreflect.MessageDescriptor, v *Msg) []byt
 			}
 		}
 	}
+	e.deferred = append(e.deferred, nil)
 	for _, f := range fields {
 		fd := FieldDesc(md, f.Num, e.r)
 		if fd == nil {
@@ -173,6 +183,8 @@ func (e *encoder) msg(b []byte, md protoreflect.MessageDescriptor, v *Msg) []byt
 		}
 		b = e.field(b, fd, f)
 	}
+	b = append(b, e.deferred[len(e.deferred)-1]...)
+	e.deferred = e.deferred[:len(e.deferred)-1]
 	return append(b, v.Unknown...)
 }
 
@@ -239,6 +251,9 @@ func (e *encoder) field(b []byte, fd protoreflect.FieldDescriptor, f Field) []by
 }
 
 func (e *encoder) mapEntry(b []byte, num int32, kd, vd protoreflect.FieldDescriptor, k, v Val) []byte {
+	// the entry is a message body of its own: occurrences deferred while encoding the value stay inside it
+	e.deferred = append(e.deferred, nil)
+	defer func() { e.deferred = e.deferred[:len(e.deferred)-1] }()
 	var kb, vb []byte
 	omitK := e.o.MapVariants && IsZero(kd, k) && e.coin(2, "omitkey")
 	omitV := e.o.MapVariants && e.coin(2, "omitval") &&
@@ -263,6 +278,7 @@ func (e *encoder) mapEntry(b []byte, num int32, kd, vd protoreflect.FieldDescrip
 	} else {
 		body = append(append(body, kb...), vb...)
 	}
+	body = append(body, e.deferred[len(e.deferred)-1]...)
 	b = e.tag(b, num, 2)
 	b = e.varint(b, uint64(len(body)))
 	return append(b, body...)
